@@ -230,7 +230,9 @@ R15_6_NAN = {
                               'x86-64); it is only compared with fill levels, never used as an index or size (reported by an independent '
                               'agent under UBSan as signed-overflow reports in bitrate.c, no memory error)',
     'lowpass_kHz': 'NaN lowpass: neither clamp fires; vorbis_encode_residue_setup computes freq>nyq? comparisons false, (int)(NaN) is '
-                   'undefined in ISO C (INT_MIN on x86-64) and r->end is then clamped by `if(r->end==0)`... not demonstrated harmful',
+                   'undefined in ISO C (INT_MIN on x86-64, the product with the grouping wraps to 0) and `if(r->end==0)r->end=r->grouping` '
+                   'takes over; findings/replay_nan_control_values.c encodes 48 packets without a memory error (UBSan reports the '
+                   'conversion and the overflow)',
     'impulse_noisetune': 'NaN noise tune: added to the noise bias tables (floats); no index or size derives from it',
 }
 
